@@ -17,6 +17,9 @@ from migen.fhdl.structure import _Operator, _Slice, _Assign, _Fragment
 # Print Constant -----------------------------------------------------------------------------------
 
 def _generate_constant(node):
+    # Signed Constants are printed as signed literals (two's complement pattern): -N'dV is unsigned in Verilog.
+    if node.signed:
+        return f"{node.nbits}'sd{node.value & (2**node.nbits - 1)}", True
     return "{sign}{bits}'d{value}".format(
         sign  = "" if node.value >= 0 else "-",
         bits  = str(node.nbits),
